@@ -681,4 +681,24 @@ theorem simplifyCk_preserves (hw : WorldOK w) (fuel c : Nat) (e e' : Expr) (c' :
   rw [VLe.eq_of_clean hclean hvv] at hv'
   exact hv'
 
+/-! ### the hypotheses are satisfiable -/
+
+/-- a world whose functions return integers is well behaved -/
+example : WorldOK { method := fun _ _ _ _ _ => .ok (.int 0), func := fun _ _ _ _ => .ok (.int 1) } :=
+  ⟨fun _ _ _ _ v h => by cases h; simp [VLe], fun _ _ _ _ _ v h => by cases h; simp [VLe]⟩
+
+/-- an environment binding a dataset of records is well formed -/
+example : EnvLe (Env.empty.upd "ds" (.list [.obj "E" ["met"] [.int 3], .obj "E" ["met"] [.int 5]]))
+    (Env.empty.upd "ds" (.list [.obj "E" ["met"] [.int 3], .obj "E" ["met"] [.int 5]])) := by
+  intro x v h
+  simp only [Env.upd] at h ⊢
+  split at h
+  · rename_i hx; cases h; exact ⟨.list [.obj "E" ["met"] [.int 3], .obj "E" ["met"] [.int 5]], by simp [hx], by simp [VLe, VLeL, VLeS]⟩
+  · simp [Env.empty] at h
+
+/-- the checked simplifier succeeds on a concrete projection (and thousands of generated queries on every run of the
+    C02 / C14 / C18 checks, where its output is compared with the implementation's) -/
+example : simplifyCk 9 0 (.sub (.tuple [.name "a", .name "b"]) (.const (.int 0))) = .ok (.name "a", 0) := by
+  simp [simplifyCk, simpCk, simpLCk, stackLookup, frameLookup, bind, Except.bind, pure, Except.pure]
+
 end Fadl
